@@ -181,7 +181,12 @@ namespace ratio
 
 #if defined(VERBOSE_LOG) || defined(BUILD_LISTENERS)
   public:
-    const std::string &guess_name(const item &itm) const noexcept { return expr_names.at(&itm); }
+    const std::string &guess_name(const item &itm) const noexcept
+    {
+      static const std::string no_name; // items which are not reachable by name (e.g., the values of an enum) have no name..
+      const auto at_itm = expr_names.find(&itm);
+      return at_itm != expr_names.cend() ? at_itm->second : no_name;
+    }
 
   private:
     void recompute_names() noexcept;
